@@ -56,17 +56,30 @@ class Var:
 
 
 class Env:
-    def __init__(self, em, vars=None):
+    def __init__(self, em, vars=None, outer=None):
         self.em = em
         self.vars = dict(vars or {})
+        # variables hidden by a later binding of the same name (decl -> Var): a shadowed variable
+        # keeps its value, and a loop / join that carries it must still find it
+        self.outer = dict(outer or {})
 
     def copy(self):
-        return Env(self.em, self.vars)
+        return Env(self.em, self.vars, self.outer)
 
     def bind(self, name, coq, ty, mut=False):
         e = self.copy()
+        old = e.vars.get(name)
+        if old is not None:
+            e.outer[old.decl] = old
         e.vars[name] = Var(coq, ty, mut)
         return e
+
+    def by_decl(self, name, decl):
+        """the variable declared as `decl` (named `name` unless shadowed)"""
+        v = self.vars.get(name)
+        if v is not None and v.decl == decl:
+            return v
+        return self.outer.get(decl, v)
 
     def rebind(self, name, coq):
         e = self.copy()
@@ -629,9 +642,9 @@ class Emitter:
     # -- joins ---------------------------------------------------------------
     def restrict(self, benv, env):
         """the view of branch environment benv on the variables of env"""
-        out = Env(self, {})
+        out = Env(self, {}, env.outer)
         for n, v in env.vars.items():
-            bv = benv.vars.get(n)
+            bv = benv.by_decl(n, v.decl)
             out.vars[n] = bv if (bv is not None and getattr(bv, "decl", None) == getattr(v, "decl", None)) else v
         return out
 
@@ -835,6 +848,10 @@ class Emitter:
         if s.init is None or s.els is not None:
             raise EmitError("let without initialiser / let-else")
         ann = self.ty_of_ast(s.ty) if s.ty is not None else None
+        if ann is None and s.pat.kind == "pident":
+            # optional vocabulary key `local_types: {fn: {local: type}}`: the type of a local whose
+            # initialiser does not determine it (`let mut r = None;`)
+            ann = self.v.get("local_types", {}).get(getattr(self, "cur_fn", None), {}).get(s.pat.name)
 
         def k1(t, ty, env1):
             ty2 = ann if ann is not None and ann != UNKNOWN else ty
@@ -1310,6 +1327,10 @@ class Emitter:
                     if r and r in env.vars:
                         if self.method_mutates(x, env):
                             add(r)
+                    # a `&mut` variable passed on by name to a method (as for calls below)
+                    for a in x.args:
+                        if a.kind == "path" and len(a.segs) == 1 and a.segs[0] in env.vars and env.vars[a.segs[0]].mut == "ref":
+                            add(a.segs[0])
                 elif x.kind == "call":
                     # a `&mut` variable passed on by name
                     for a in x.args:
@@ -1363,7 +1384,7 @@ class Emitter:
         stpat = "_" if not st else (st[0] if len(st) == 1 else "'(%s)" % ", ".join(st))
 
         def fin(envx, term):
-            return "Some (%s, %s)" % (self.tuple_of([envx.get(n).coq for n in cap]), term)
+            return "Some (%s, %s)" % (self.tuple_of([envx.by_decl(n, env.get(n).decl).coq for n in cap]), term)
         old = self.ctl
         oldpm = self.pure_mode
         self.pure_mode = 0
@@ -1437,7 +1458,7 @@ class Emitter:
                 stn.append(c)
                 env2 = env2.rebind(n, c)
             stpat = "_" if not st else (stn[0] if len(st) == 1 else "'(%s)" % ", ".join(stn))
-            tup = lambda envx: self.tuple_of([envx.get(n).coq for n in st])
+            tup = lambda envx: self.tuple_of([envx.by_decl(n, env1.get(n).decl).coq for n in st])
             nxt, brk = ("LNext", "LBreak") if ret else ("BNext", "BBreak")
             old = self.ctl
             oldpm = self.pure_mode
@@ -1486,7 +1507,7 @@ class Emitter:
             stn.append(c)
             env2 = env2.rebind(n, c)
         stpat = "_" if not st else (stn[0] if len(st) == 1 else "'(%s)" % ", ".join(stn))
-        tup = lambda envx: self.tuple_of([envx.get(n).coq for n in st])
+        tup = lambda envx: self.tuple_of([envx.by_decl(n, env.get(n).decl).coq for n in st])
         nxt, brk = ("LNext", "LBreak") if ret else ("BNext", "BBreak")
         old = self.ctl
         oldpm = self.pure_mode
@@ -1588,7 +1609,7 @@ class Emitter:
         self.monadic = False
 
         def finish(envx, t, ty):
-            parts = [envx.get(n).coq for n in outs]
+            parts = [envx.by_decl(n, env.get(n).decl).coq for n in outs]
             if ret != UNIT:
                 parts.append(t)
             val = self.tuple_of(parts) if parts else "tt"
